@@ -1,4 +1,5 @@
 import Glom.Lemmas.C05Repr
+import Glom.Lemmas.C05ReprPrefix
 import Glom.Generated.C05Facts
 /-
   C05 — the values on the `Target:` / `Spec:` lines: `bbrepr` against Python's `repr`.
@@ -18,6 +19,12 @@ import Glom.Generated.C05Facts
     c05_trace_value_exact … so its trace line is `_format_trace_value` of Python's own repr
     c05_repr_exact_of_facts / c05_repr_exact_glom   … for every table satisfying `limitsWF` (in particular
                           the one extracted on this run) and every value below `limitBound`
+    c05_trace_value_any / _glom   for ANY value (beyond the limits too: the model elides like glom) the
+                          trace value at every width ≤ `maxTraceWidth` is that of Python's own repr —
+                          the elisions of reprlib keep `(limit - 3) / 2` characters, `.replace` at most
+                          halves them, `limitBound` is four lines and more (Lemmas/C05ReprPrefix:
+                          `agree_all` by induction over values with a prefix budget per nesting
+                          level); hypothesis: long strings keep their quote (`c05_repr_quote_unstable`)
     c05_repr_one_line     the model's text of a value has no line break (the hypothesis of
                           Props/C05Text on spec / target texts), given that of the opaque leaves
     c05_default_limits_elide   with the limits of a plain `reprlib.Repr()` (what a limit falls back to
@@ -73,6 +80,62 @@ theorem c05_repr_exact_glom (P : Char → Bool) (v : RV) (hv : fits (Limits.unif
 theorem c05_repr_one_line (L : Limits) (P : Char → Bool) (v : RV) (h : leavesOneLine v) :
     ∀ c, c ∈ traceRepr L P v → c ≠ '\n' :=
   replQ_OneLine _ ((repr1_OneLine_all L P v h).1 L.maxlevel)
+
+/-- **the size limits of `bbrepr` do not show in a trace line, for ANY value**: for every extracted
+    table that satisfies `limitsWF`, every value — however deep, long or large; beyond the limits the
+    model elides like glom — and every available width up to `maxTraceWidth` (that can hold the
+    `...` / `... (len=n)` mark), the trace value `_format_trace_value` makes of `bbrepr`'s text is the
+    one it would make of Python's own `repr`.
+    Hypothesis `strOK`: a string longer than `maxstring` keeps its quote when `repr_str` cuts its
+    middle out (`QuoteStable`; trivially so for a string without quote characters, or not longer
+    than half the limit) — needed, see `c05_repr_quote_unstable`. -/
+theorem c05_trace_value_any (tbl : List (String × Nat)) (fillv : String) (ind : Bool) (ov : List String)
+    (hwf : limitsWF tbl fillv ind ov = true) (P : Char → Bool) (v : RV) (hs : strOK (limitsOf tbl) v)
+    (vlen : Option Nat) (m : Int) (hm : m ≤ maxTraceWidth)
+    (hsuf : ((match vlen with
+      | some n => "... (len=".toList ++ natStr n ++ ")".toList
+      | none => "...".toList).length : Int) ≤ m) :
+    formatValue (traceRepr (limitsOf tbl) P v) vlen m = formatValue (refTrace P v) vlen m := by
+  simp only [limitsWF, Bool.and_eq_true] at hwf
+  have hge : (limitsOf tbl).allGe limitBound = true := hwf.1.1.1.2
+  have hL : (limitsOf tbl).allGe (2 * (2 * maxTraceWidth + 4) + 5) = true :=
+    allGe_mono _ _ _ hge (by decide)
+  have hlev : 2 * maxTraceWidth + 4 ≤ (limitsOf tbl).maxlevel := by
+    have := (uniform_le_of_allGe _ _ hge).1
+    simp only [Limits.uniform] at this
+    have h2 : 2 * maxTraceWidth + 4 ≤ limitBound := by decide
+    omega
+  have hA := (agree_all (limitsOf tbl) P (2 * maxTraceWidth + 4) hL v hs).1 (limitsOf tbl).maxlevel
+    (2 * maxTraceWidth + 4) hlev (Nat.le_refl _)
+  have hB := hA.replQ
+  apply formatValue_agree _ _ _ vlen m hB _ hsuf
+  have : ((2 * maxTraceWidth + 4) / 2 - 1 : Nat) = maxTraceWidth + 1 := by decide
+  rw [this]
+  omega
+
+/-- … in particular for the table extracted from glom on this run -/
+theorem c05_trace_value_any_glom (P : Char → Bool) (v : RV) (hs : strOK (limitsOf Glom.Generated.bbLimitTable) v)
+    (vlen : Option Nat) (m : Int) (hm : m ≤ maxTraceWidth)
+    (hsuf : ((match vlen with
+      | some n => "... (len=".toList ++ natStr n ++ ")".toList
+      | none => "...".toList).length : Int) ≤ m) :
+    formatValue (traceRepr (limitsOf Glom.Generated.bbLimitTable) P v) vlen m = formatValue (refTrace P v) vlen m :=
+  c05_trace_value_any _ _ _ _ c05_facts_wf P v hs vlen m hm hsuf
+
+/-- a string with both quote characters, the `"` in the middle `repr_str` cuts out (`'aaaa…"…aaaa`;
+    limits 13 instead of 1024, so that 40 characters suffice) -/
+def quoteStr : Str := '\'' :: (List.replicate 20 'a' ++ '"' :: List.replicate 20 'a')
+
+/-- **`strOK` is needed**: `repr_str` takes the quote of the CUT string — which has lost its `"` — so
+    its text starts with another quote than Python's repr of the whole string: no common prefix at
+    all.  (glom: a str of more than 1024 characters with `'` in its first / last 510 and `"` only in
+    the middle is shown as `"'aaa…` instead of `'\'aaa…`: cosmetic.) -/
+theorem c05_repr_quote_unstable :
+    (limitsOf [("maxlevel", 13), ("maxtuple", 13), ("maxlist", 13), ("maxarray", 13), ("maxdict", 13), ("maxset", 13),
+      ("maxfrozenset", 13), ("maxdeque", 13), ("maxstring", 13), ("maxlong", 13), ("maxother", 13)]).allGe (2 * 4 + 5) = true ∧
+    (bbrepr (Limits.uniform 13) (fun c => c.toNat < 127) (.str quoteStr)).head? = some '"' ∧
+    (refRepr (fun c => c.toNat < 127) (.str quoteStr)).head? = some '\'' := by
+  decide +kernel
 
 /-! ### the limits matter: under reprlib's defaults short values are not shown -/
 
